@@ -277,6 +277,31 @@ pub(crate) mod verif_tokens {
             vec![k as u8]
         }
     }
+    // ---- callee contract of rlp::iter as a recording *list token*: records the one-byte tokens of the items it is
+    // handed, in order, and returns the one-byte string [0xee].  (That the real rlp::iter / rlp::list produce
+    // hdr(total, 0xc0) ++ concat(items) is C07: the Verus obligation on `list` and the `c07_iter_*` pairings.)
+    pub static mut LIST_CALLS: usize = 0;
+    pub static mut NITEMS: usize = 0;
+    pub static mut ITEMS: [u8; 16] = [0xff; 16];
+    pub fn iter_token<U, I>(items: I) -> Vec<u8>
+    where
+        U: AsRef<[u8]>,
+        I: IntoIterator<Item = U>,
+    {
+        unsafe {
+            LIST_CALLS += 1;
+            let mut n = 0;
+            for it in items {
+                let s = it.as_ref();
+                if n < 16 {
+                    ITEMS[n] = if s.len() == 1 { s[0] } else { 0xfe };
+                }
+                n += 1;
+            }
+            NITEMS = n;
+        }
+        vec![0xee]
+    }
     pub fn is_uint(tok: u8, v: U256) -> bool {
         let k = tok as usize;
         k < 24 && unsafe { KIND[k] == 1 && UVAL[k] == (*v.high(), *v.low()) }
